@@ -4,7 +4,7 @@
 // terminal_is_recognised).  One instantiation per format because the hook structs are private.
 
 use super::*;
-use crate::verif_common::{instr_round_trip, instr_size_field, terminal_is_recognised, Stored, SizeField};
+use crate::verif_common::{label_round_trip, instr_round_trip, instr_size_field, terminal_is_recognised, Stored, SizeField};
 
 macro_rules! c03 {
     ($name:ident, $unwind:literal, $body:expr) => {
@@ -28,6 +28,9 @@ c03!(c03_msg_rt_n12, 15, instr_round_trip::<12>(&MsgHooks { language: LanguageKe
 c03!(c03_msg_size_field, 4, instr_size_field(&MsgHooks { language: LanguageKey::Msg }, Stored { param_mask: false, difficulty: false, extra_arg: false, pop_and_arg_count: false, maybe_terminal: true, ignore_param_mask: false }, SizeField { offset: 3, width: 1, counts_header: false, reader_max: 255 }, 70000));
 //@ C03 c03_msg_terminal quick default MSG: the end-of-script marker written by write_terminal_instr is recognised as such by read_instr
 c03!(c03_msg_terminal, 8, terminal_is_recognised(&MsgHooks { language: LanguageKey::Msg }, true, 0));
+
+//@ C03 c03_label_absolute quick default default label encoding (MSG, ANM, STD TH095+: absolute offset): decode_label(encode_label(dest)) == dest for every offset below 2^31
+c03!(c03_label_absolute, 2, label_round_trip(&MsgHooks { language: LanguageKey::Msg }, 1));
 
 #[cfg(kani)]
 #[path = "/verif/.cache/playback/msg.rs"]
